@@ -356,7 +356,7 @@ impl Property for C19 {
         ]
     }
     fn cases(&self, tier: Tier) -> u32 {
-        tier.pick(240_000, 6_000_000)
+        tier.pick(240_000, 2_000_000)
     }
     fn strategy(&self, tier: Tier) -> BoxedStrategy<Case> {
         let indent = prop_oneof![3 => Just(0u8), 1 => Just(2u8), 1 => Just(4u8)];
